@@ -890,6 +890,7 @@ func main() {
 	run.Res.Extra["key_mode"] = map[string]string{"normalised_document": keyMode, "key_shape": keyShape}
 	run.Tag("key:" + keyMode + "/" + keyShape)
 	run.Res.Rule = "histories of Get / ExecutePlan / Reset / schema replacement (two slots, same shape, new pointer per replacement) over a pool of 6-30 requests drawn as near-miss pairs from thirteen families (second spread of a fragment already spread elsewhere present / absent / with a directive, definitions the selected operation does not reach, equal literals under every wrapper shape of one input type, list / input-object literals for resolvers that mutate their arguments, one literal, one alias, argument order/name, operation names, text imitating the key encodings incl. \\x00 and multi-byte, variables + dynamic directives, object/list/interface/union/fragment shapes, rejected requests, formerly normaliser-unsafe shapes D-06b…g), caps {1,2,3,5,default}, MaxQueryBytes {default,40,64} with over-size and at-limit twins, nil cache 1/25; modes raw 60% / Normalize=true 40% (norm-safe, norm-any = with adversarial operation names); non-trivial = the history has a hit and at least one of eviction, schema-guard miss, reset, bypass, re-execution of a stale plan; distinct by the whole history"
+	run.Res.Rule += " || interleaved Gets: a complete Get (and a third one inside it) nested between the lookup and the store of another Get through a custom scalar's ParseLiteral hook; all of Normalize on/off x caps {1,2,default} x nested Get on the same / the other schema pointer x same / other key x pre-populated entry (none, other schema same key, same schema other key) x third Get (none, A, B) x a sibling Get for the other request inside the outer one x which schema asks first afterwards; compared with the model run on the same lookup/store primitives (hit/miss, which Get's plan a hit returns, key list in MRU order + length + counters whenever no Get is in flight) and with graphql.Do on the request's own schema"
 	run.Res.Assumptions = []string{
 		"Normalize=true is compared with graphql.Do on every history and every pool (the shapes that exhibited D-06b…g are part of the pool since their repair); mode norm-any differs from norm-safe only by also drawing adversarial operation names",
 		"the response comparison is byte equality of json.Marshal(result) (data and errors with messages, locations, paths) between ExecutePlan(plan from the cache, args ∪ SynthArgs) and graphql.Do on the same schema object",
@@ -930,10 +931,13 @@ func main() {
 
 	if run.ReplayIn != "" {
 		var rp struct {
-			History historyT `json:"history"`
+			History historyT   `json:"history"`
+			Nested  *nestedScn `json:"nested"`
 		}
 		if err := hx.LoadReplay(run.ReplayIn, &rp); err != nil {
 			run.CheckError(err.Error())
+		} else if rp.Nested != nil {
+			oneNested(run, drv, *rp.Nested)
 		} else {
 			one(rp.History, true)
 		}
@@ -942,6 +946,14 @@ func main() {
 	}
 
 	run.Res.Extra["probes_known_normaliser_defects"] = runProbes()
+
+	// interleaved Gets (a Get nested inside a Get between its lookup and its store): the whole scenario space
+	for _, sc := range nestedScenarios() {
+		if run.TooManyViolations() {
+			break
+		}
+		oneNested(run, drv, sc)
+	}
 
 	n := run.N(1500, 5000)
 	for i := 0; i < n && !run.TooManyViolations(); i++ {
